@@ -106,16 +106,23 @@ Definition reattach (listed : list (string * nat)) (cols : list lcol) : list lco
   map (fun ic => if mem_nat (fst ic) (map snd listed) then set_owner (snd ic) else snd ic)
       (combine (seq 0 (List.length cols)) cols).
 
+(* the id bookkeeping of DataMatrix.__init__ / __setstate__ / _mutate (regenerated kernels, statement order as in
+   the source): counter -> (the object's _id, the counter afterwards) *)
+Definition to_nat2 (p : Z * Z) : nat * nat := (Z.to_nat (fst p), Z.to_nat (snd p)).
+Definition init_ids (n : nat) : nat * nat := to_nat2 (k_init_ids (Z.of_nat n)).
+Definition setstate_ids (n : nat) : nat * nat := to_nat2 (k_setstate_ids (Z.of_nat n)).
+Definition mutate_ids (own n : nat) : nat * nat := to_nat2 (k_mutate_ids (Z.of_nat own) (Z.of_nat n)).
+
 (* DataMatrix.__setstate__ with the global id counter at nextid; returns the object and the counter *)
 Definition dm_setstate (nextid : nat) (st : dstate) : option (ltable * nat) :=
-  let d := dict_set "_id" (DvId nextid) (setstate st) in
+  let d := dict_set "_id" (DvId (fst (setstate_ids nextid))) (setstate st) in
   match lookup "_cols" d, lookup "_rowid" d, lookup "_default_col_type" d, lookup "_id" d, lookup "_sorted" d with
   | Some (DvCols nm objs), Some (DvRowid ist), Some (DvDflt k), Some (DvId f), Some (DvSorted b) =>
       match all_some (map col_setstate objs), index_setstate ist with
       | Some cols, Some rid =>
           Some ({| l_fam := f; l_rowid := rid; l_names := nm; l_cols := reattach (to_list b nm) cols;
                    l_sorted := b; l_dflt := k |},
-                Z.to_nat (k_next_id (Z.of_nat nextid)))
+                snd (setstate_ids nextid))
       | _, _ => None
       end
   | _, _, _, _, _ => None
